@@ -200,6 +200,8 @@ class Bridge(object):
             for a, n, _c in self.arrs:
                 if n is v:
                     return a
+            if v.ndim == 0:
+                return self.engine(v.item())       # numpy 0-d results behave as scalars in the contracts
             return nd_to_arr(v)
         if isinstance(v, list):
             return [self.engine(x) for x in v]
